@@ -227,7 +227,7 @@ func RenderConc(scs []*Scenario) string {
 			body("\t")
 			w("}\n")
 		case "twoholders":
-			w("func acc2%d(h1, h2 *H) {\n\tp := h1.t\n\t_ = h2\n", n)
+			w("func acc2%d(h1, h2 *H) {\n\tp := h2.t\n\t_ = h1\n", n)
 			body("\t")
 			w("}\n")
 		case "gorunhelper":
@@ -316,7 +316,14 @@ func RenderConc(scs []*Scenario) string {
 				w("%s}, fin2)\n%s<-fin2\n", ind, ind)
 			}
 		}
-		if sc.Root == "loop" {
+		if sc.Root == "delayed" {
+			// delayed hand-off: the object is picked up into a loop-carried variable in one round and
+			// handed to the goroutine in the next; the access of the third round touches shared memory
+			w("\tvar pending *T\n\tfor i := 0; i < 3; i++ {\n")
+			ind = "\t\t"
+			access()
+			w("\t\tif i == 1 && pending != nil {\n\t\t\tgo writer%d(pending, done)\n\t\t}\n\t\tpending = p\n\t}\n", n)
+		} else if sc.Root == "loop" {
 			// the access comes first in the loop body; the object is shared at the end of the first
 			// round, so the access of the second round touches shared memory
 			w("\tfor i := 0; i < 2; i++ {\n")
@@ -350,6 +357,9 @@ func RandScenarios(r *rand.Rand, n int, avoid func(*Scenario) bool) []*Scenario 
 	for len(out) < n {
 		sc := &Scenario{ID: len(out), Share: ConcShares[r.Intn(len(ConcShares))],
 			Access: ConcAccesses[r.Intn(len(ConcAccesses))], Via: ConcVias[r.Intn(len(ConcVias))], Root: []string{"call", "go", "go", "loop"}[r.Intn(4)]}
+		if r.Intn(12) == 0 {
+			sc.Root, sc.Share = "delayed", "goarg"
+		}
 		if avoid != nil && avoid(sc) {
 			continue
 		}
